@@ -126,6 +126,9 @@ class QueryBuilder:
             if c.get("form") == "class":
                 return world.PREDICATE_CLASSES[c["p"]](*args)
             return world.PREDICATES[c["p"]](*args)
+        if k == "hastype":
+            from entity_query_language import HasType
+            return HasType(self.expr(c["e"]), world.CLASSES[c["T"]])
         if k == "subq":
             inner = self.cond(c["c"])
             sel = [self.expr(s) for s in c["sel"]]
